@@ -213,6 +213,11 @@ def make_vars(form, box):
         return I(np.array([float(a) for a, _ in box]), np.array([float(b) for _, b in box]))
     if form == "Vi":        # integer-dtype bound arrays
         return I(np.array([int(a) for a, _ in box], dtype=np.int64), np.array([int(b) for _, b in box], dtype=np.int64))
+    if form in ("V32", "V16", "Vld"):        # reduced / extended precision bound arrays holding exactly the same values
+        dt = {"V32": np.float32, "V16": np.float16, "Vld": np.longdouble}[form]
+        lo, hi = np.array([float(a) for a, _ in box]).astype(dt), np.array([float(b) for _, b in box]).astype(dt)
+        assert all(float(x) == float(a) for x, (a, _) in zip(lo, box)) and all(float(x) == float(b) for x, (_, b) in zip(hi, box))
+        return I(lo, hi)
     if form == "Vu":        # unsigned-integer bound arrays
         return I(np.array([int(a) for a, _ in box], dtype=np.uint64), np.array([int(b) for _, b in box], dtype=np.uint64))
     if form == "Vn":        # bounds are negative-stride views of a matrix stored in reversed row order
@@ -512,7 +517,9 @@ def gen_cases(ctx):
         d = len(box)
         if cf is None:
             cf = configs(rng, d, exact, budget)
-        if exact:
+        if exact and stream == "numeric-types":
+            pass
+        elif exact:
             # exact only while binary64 cannot round: |x| <= 4 (3 bits) plus log2(n_sub) fractional bits per variable
             nmax = max([n for (_, _, n) in cf if n] + [1])
             if bitdeg(e, 3 + max(nmax, 1).bit_length()) > 52 or any(n and (n & (n - 1)) for (_, _, n) in cf if isinstance(n, int)):
@@ -659,6 +666,22 @@ def gen_cases(ctx):
                        (("add", ("v", 0), ("mul", ("c", -3), ("v", 0))), [(-1.0 * sc, 4.0 * sc)])):
             add("scaled", e, box, form="L", mag_floor=0.0,
                 cf=[("direct", None, None), ("endpoints", None, None), ("subinterval", "direct", 3), ("subinterval", "endpoints", 2)])
+    # C9. numeric types: the box given as float32 / float16 / longdouble arrays holding values that are exact in that type; the
+    #     results must be the float64 computation (products of two 13-bit values need 26 bits: inexact in float32, exact in float64)
+    for k in range(ctx.scale(12, 120)):
+        d = rng.choice([2, 2, 3])
+        form = ("V32", "V16", "Vld")[k % 3]
+        if form == "V16":
+            box = [tuple(sorted([rng.randint(-31, 31) / 8, rng.randint(-31, 31) / 8])) for _ in range(d)]
+            e = gen_expr(rng, d, 3, ["mul", "mul", "add", "sub", "pow"], [-3, 2, 3])
+        else:
+            box = [tuple(sorted([rng.randint(-4095, 4095) / 1024, rng.randint(-4095, 4095) / 1024])) for _ in range(d)]
+            e = gen_expr(rng, d, 2, ["mul", "mul", "add", "sub"], [-3, 2, 3])
+        ex = bitdeg(e, 13 if form != "V16" else 8) <= 52
+        add("numeric-types", e, box, form=form, exact=ex,
+            cf=[("direct", None, None), ("endpoints", None, None), ("subinterval", "direct", 2), ("subinterval", "endpoints", 2)])
+    add("numeric-types", ("div", ("mul", ("v", 0), ("v", 1)), ("add", ("v", 0), ("c", 5))), [(0.3330078125, 1.6669921875), (1.2001953125, 2.7998046875)], form="V32",
+        cf=[("direct", None, None), ("endpoints", None, None), ("subinterval", "endpoints", 3)])
     # C6. chained: the Interval RETURNED by one propagation is the first operand of the next
     for e0, box0, e1, rest in (
             (("sub", ("mul", ("v", 0), ("v", 1)), ("v", 0)), [(-1, 2), (3, 5)], ("sub", ("mul", ("v", 0), ("v", 0)), ("mul", ("v", 0), ("v", 1))), [(1, 2)]),
@@ -695,6 +718,15 @@ def gen_cases(ctx):
     ]
     for m in mf:
         add("malformed", m["e"], m["box"], exact=True, cf=m["cf"])
+    # negative powers of a (sub-)expression whose interval contains zero (interior, or as an endpoint / a tile boundary): a pole
+    for e, box, cfs in (
+            (("npow", ("v", 0), 1), [(-2.0, 3.0)], [("direct", None, None), ("subinterval", "direct", 2), ("subinterval", "direct", 3)]),
+            (("add", ("npow", ("v", 0), 3), ("v", 1)), [(-2.0, 2.0), (1.0, 2.0)], [("direct", None, None), ("subinterval", "direct", 2)]),
+            (("npow", ("v", 0), 1), [(-2.0, 0.0)], [("direct", None, None), ("subinterval", "direct", 2)]),
+            (("mul", ("v", 1), ("npow", ("sub", ("v", 0), ("v", 1)), 3)), [(0.0, 2.0), (1.0, 3.0)], [("direct", None, None), ("subinterval", "direct", 2)]),
+            (("npow", ("v", 0), 2), [(-1.0, 2.0)], [("direct", None, None), ("subinterval", "direct", 2)]),
+            (("npow", ("v", 0), 1), [(0.0, 4.0)], [("direct", None, None)])):
+        add("malformed", e, box, nomodel=True, cf=cfs)
     # valid extreme inputs must NOT raise: exp just below overflow, sqrt from exactly 0, a divisor just off zero
     edge_cf = [("direct", None, None), ("endpoints", None, None), ("subinterval", "direct", 2), ("subinterval", "endpoints", 3)]
     add("edge-valid", ("exp", ("v", 0)), [(700.0, 709.0)], cf=edge_cf)
@@ -876,7 +908,7 @@ def run(ctx: core.Check, cases=None):
             runs.append((ci, "b2b", cf))
         if "route" in c:
             runs.append((ci, "ep", c["route"]))
-    FORMW = {"L": "L", "Li": "L", "T": "L", "V": "V", "Vi": "V", "Vn": "V", "Vf": "V", "Vu": "V", "S": "S"}
+    FORMW = {"L": "L", "Li": "L", "T": "L", "V": "V", "Vi": "V", "Vn": "V", "Vf": "V", "Vu": "V", "V32": "V", "V16": "V", "Vld": "V", "S": "S"}
 
     def mk_req(i, tab):
         ci, kind, cf = runs[i]
@@ -991,13 +1023,49 @@ def run(ctx: core.Check, cases=None):
         if getattr(fobj, "vars", None) is not None and snapshot_vars(fobj.vars) != fobj.vars_snap:
             ctx.fail({"call": "b2b", "what": "operand-modified", "stream": c["stream"], "form": c["form"]}, cj(c, kcf),
                      f"the input intervals of b2b({kcf}) were modified by the call or by a later one")
+    # ---- caller-visible aliasing: a result must not share memory with the operand arrays; the caller then overwrites its
+    #      buffers in place and the earlier results must still read the same
+    I = _I()
+    by_obj = {}
+    for (ci, kcf), fobj in captured.items():
+        v = getattr(fobj, "vars", None)
+        if isinstance(v, I) and getattr(fobj, "raw", None) is not None and isinstance(fobj.raw, I):
+            by_obj.setdefault(id(v), (v, []))[1].append((ci, kcf, fobj))
+    for v, lst in by_obj.values():
+        bufs = [b for b in (getattr(v, "_lo", None), getattr(v, "_hi", None)) if isinstance(b, np.ndarray)]
+        for ci, kcf, fobj in lst:
+            res = [b for b in (getattr(fobj.raw, "_lo", None), getattr(fobj.raw, "_hi", None)) if isinstance(b, np.ndarray)]
+            if any(np.shares_memory(a, b) for a in res for b in bufs):
+                ctx.fail({"call": "b2b", "what": "result-shares-memory-with-operand", "stream": cases[ci]["stream"], "form": cases[ci]["form"]},
+                         cj(cases[ci], kcf), "the returned Interval shares memory with the input box arrays")
+        try:
+            for b in bufs:
+                if b.flags.writeable and b.dtype.kind == "f":
+                    b += 5.0
+        except BaseException:  # noqa
+            continue
+        for ci, kcf, fobj in lst:
+            if canon(fobj.raw) != results[(ci, kcf)]:
+                ctx.fail({"call": "b2b", "what": "result-follows-operand-buffer", "stream": cases[ci]["stream"], "form": cases[ci]["form"]},
+                         cj(cases[ci], kcf, recorded=list(results[(ci, kcf)]), now=list(canon(fobj.raw))),
+                         "after the caller overwrote its input arrays in place the earlier result reads differently")
     # ---- a few dozen runs again, after everything else: identical results (no state carried between calls) --------
     again = [(i, r) for i, r in enumerate(runs) if r[1] == "b2b" and cases[r[0]]["stream"] in ("witness", "exact", "general", "sequence", "thin", "small", "scaled")]
     step = max(1, len(again) // ctx.scale(40, 200))
     for i, (ci, kind, cf) in again[::step]:
         c = cases[ci]
-        impl2, _ = run_b2b(c["e"], c["box"], c["form"], *cf, fstyle=("lambda", "object", "closure")[i % 3])
+        strict = (i // step) % 2 == 1
+        if strict:      # floating-point errors raise, warnings are errors: the same value or an exception, never another value
+            import warnings as _w
+            with np.errstate(all="raise"), _w.catch_warnings():
+                _w.simplefilter("error")
+                impl2, _ = run_b2b(c["e"], c["box"], c["form"], *cf, fstyle=("lambda", "object", "closure")[i % 3])
+        else:
+            impl2, _ = run_b2b(c["e"], c["box"], c["form"], *cf, fstyle=("lambda", "object", "closure")[i % 3])
         ctx.evaluations += 1
+        if strict and impl2[0] == "err" and results[(ci, cf)][0] == "ok":
+            ctx.bump("strict-fp:raised")
+            continue
         if impl2 != results[(ci, cf)]:
             ctx.fail({"call": "b2b", "what": "second-evaluation-differs", "stream": c["stream"], "form": c["form"], "strategy": cf[0], "style": cf[1]},
                      cj(c, cf, first=list(results[(ci, cf)]), second=list(impl2)),
